@@ -147,6 +147,13 @@ class UbxRun:
                     p.process(lazy_with_restart(p, op))
                 elif op[0] == 'O':
                     realenv.interleaved(lambda: p.process(feed_bytes(op)), int(op[1:].split(':')[0]), meanwhile_ubx)
+                elif op[0] in 'AM':
+                    # the caller's own receive buffer (a bytearray, or a memoryview of one, filled readinto-style): handed over, and used
+                    # again for the next read as soon as process() has returned - what the parser keeps must be its own
+                    buf = bytearray(feed_bytes(op))
+                    p.process(buf if op[0] == 'A' else memoryview(buf))
+                    for k in range(len(buf)):
+                        buf[k] = 0xEE
                 else:
                     p.process(as_container(op[0], feed_bytes(op)))
             elif op == 'K':
@@ -1028,8 +1035,30 @@ def high_digit_sentences():
                     yield b'$' + body + b'*' + digits + b'\r\n'
 
 
+def odd_digit_sentences():
+    """a sign, a blank, a TAB, CR or LF where one of the two checksum digits belongs, the other digit and the body chosen so that
+    reading the pair as ONE number (with whatever a lenient conversion strips or accepts) would make it fit: no pair of hex digits,
+    no sentence"""
+    hexd = b'0123456789ABCDEF'
+    out = []
+    for ch in b'+- \t\r\n_':
+        for pos in (0, 1):
+            for v in range(16):
+                x = v                         # the body's XOR is the one digit that is there
+                a = 0x41
+                c2 = a ^ x
+                if c2 in (0x24, 0x2a, 0x0d, 0x0a):
+                    continue
+                digits = bytes([ch, hexd[v]]) if pos == 0 else bytes([hexd[v], ch])
+                out.append(b'$' + bytes([a, c2]) + b'*' + digits + (b'\r\n' if ch not in b'\r\n' else b'x'))
+    return out
+
+
 def gen_nmea1(rng, n, profile):
     if profile == 'count':
+        odd = odd_digit_sentences()
+        for k in range(0, len(odd), 32):
+            yield 'nmea|P' + b''.join(odd[k:k + 32]).hex()
         batch = b''
         for k, sn in enumerate(high_digit_sentences()):
             batch += sn
